@@ -1,7 +1,7 @@
 ---------------------------- MODULE ZipfCdfTrace ----------------------------
 (***************************************************************************)
 (* C18: the CDF tables of the Zipf generators.  A record holds, for one     *)
-(* parameter tuple (type, min, n bins, alpha = a10/10), the values          *)
+(* parameter tuple (type, min, n bins, alpha = a100/100), the values        *)
 (* GetCDF(k) of the exact class (ex) and of the approximate class (ap) at   *)
 (* the bins ks, as fixed-point integers floor(cdf * 2^30) - 1.0 is exactly  *)
 (* 2^30 - plus, for small tables, the IEEE representation in four 16-bit    *)
@@ -40,7 +40,7 @@ Pow(b, e) == IF e = 0 THEN 1 ELSE b * Pow(b, e - 1)
 Term(i, a) == S13 \div Pow(i, a)
 RECURSIVE Partial(_, _)
 Partial(k, a) == IF k = 0 THEN 0 ELSE Partial(k - 1, a) + Term(k, a)
-Law(r) == LET a == r.a10 \div 10
+Law(r) == LET a == r.a100 \div 100
               tot == Partial(r.n, a) IN
           \A k \in 0..(r.n - 1) : Abs(r.ex13[k + 1] * tot - Partial(k + 1, a) * S13) <= 41 * tot
 
@@ -50,8 +50,8 @@ Exact(r) == /\ Len(r.ex) = Len(r.ks) /\ InUnit(r.ex)
             /\ Mono(r.ex)
             /\ EndsAtLast(r) => r.ex[Len(r.ex)] = ONE
             /\ r.n <= 100 => (Len(r.exq) = Len(r.ks) /\ r.apq = r.exq)
-            /\ (r.n >= 1000 /\ r.a10 >= 0 /\ r.a10 <= 30) => \A i \in 1..Len(r.ks) : Abs(r.ap[i] - r.ex[i]) <= TOL
-            /\ (r.a10 \in {0, 10, 20, 30} /\ r.n <= 16 /\ Dense(r)) => Law(r)
+            /\ (r.n >= 1000 /\ r.a100 >= 0 /\ r.a100 <= 300) => \A i \in 1..Len(r.ks) : Abs(r.ap[i] - r.ex[i]) <= TOL
+            /\ (r.a100 \in {0, 100, 200, 300} /\ r.n <= 16 /\ Dense(r)) => Law(r)
 
 Init == l = 1 /\ TLCSet(1, 1)
 Tab == /\ l <= Len(Tr) /\ Ev.e = "tab"
